@@ -24,21 +24,22 @@ Proof. unfold adv_spaces. apply flat_map_app. Qed.
    exactly when the layer is switched *)
 Definition quietly (m m' : mstate) : Prop :=
   m_adv m' = m_adv m /\
-  exists d, m_tr m' = m_tr m ++ d /\ m_hs m' = (m_hs m || switched d) /\ adv_spaces (ins_of d) = adv_spaces (ins_of d).
+  exists d, m_tr m' = m_tr m ++ d /\ m_hs m' = (m_hs m || switched d) /\ m_info m' = m_info m.
 
 Lemma q_refl m : quietly m m.
 Proof. split; [reflexivity|]. exists []. rewrite app_nil_r, Bool.orb_false_r. auto. Qed.
 
 Lemma q_trans m1 m2 m3 : quietly m1 m2 -> quietly m2 m3 -> quietly m1 m3.
 Proof.
-  intros (Ha & d1 & Ht1 & Hh1 & _) (Hb & d2 & Ht2 & Hh2 & _). split; [congruence|].
-  exists (d1 ++ d2). rewrite Ht2, Ht1, app_assoc, Hh2, Hh1, switched_app, Bool.orb_assoc. auto.
+  intros (Ha & d1 & Ht1 & Hh1 & Hi1) (Hb & d2 & Ht2 & Hh2 & Hi2). split; [congruence|].
+  exists (d1 ++ d2). rewrite Ht2, Ht1, app_assoc, Hh2, Hh1, switched_app, Bool.orb_assoc.
+  split; [reflexivity|]. split; [reflexivity|congruence].
 Qed.
 
 Lemma q_same m m' :
-  m_adv m' = m_adv m -> m_tr m' = m_tr m -> m_hs m' = m_hs m -> quietly m m'.
+  m_adv m' = m_adv m -> m_tr m' = m_tr m -> m_hs m' = m_hs m -> m_info m' = m_info m -> quietly m m'.
 Proof.
-  intros Ha Ht Hh. split; [exact Ha|]. exists []. rewrite app_nil_r, Bool.orb_false_r. auto.
+  intros Ha Ht Hh Hi. split; [exact Ha|]. exists []. rewrite app_nil_r, Bool.orb_false_r. auto.
 Qed.
 
 Lemma q_emit e m : is_switch e = false -> quietly m (emit e m).
@@ -55,11 +56,11 @@ Proof.
 Qed.
 
 (* a result that asks for a stream restart *)
-Definition restarting (r : res (N * bool)) : Prop := exists mask, r = Good (mask, true).
+Definition restarting (r : res (N * bool)) : Prop := r = Good (st_Secure, true).
 
 Lemma starttls_negotiate_q c m m' o :
   starttls_negotiate c m = (m', o) ->
-  quietly m m' /\ (m_hs m = false -> m_hs m' = true -> o_restart o = true /\ o_err o = false).
+  quietly m m' /\ (m_hs m = false -> m_hs m' = true -> o = mkO st_Secure true false).
 Proof.
   unfold starttls_negotiate.
   set (ma := emit (EOut (WElem ns_StartTLS str_starttls)) m).
@@ -67,12 +68,9 @@ Proof.
   destruct (read RPReply ma) as [m2 r] eqn:E. pose proof (read_q _ _ _ _ E) as Hq2.
   pose proof (q_trans _ _ _ Hqa Hq2) as Hq.
   destruct (is_proceed r); intro H; inversion H; subst.
-  - split; [|cbn; auto]. eapply q_trans; [exact Hq|].
+  - split; [|auto]. eapply q_trans; [exact Hq|].
     split; [reflexivity|]. exists [ESwitch (tls_name c m2)]. cbn. rewrite Bool.orb_true_r. auto.
-  - split; [exact Hq|]. intros H0 H1. destruct Hq as (_ & d & Ht & Hh & _).
-    (* no switch happened: every event of d is an EOut / EIn / EEof *)
-    exfalso. clear H.
-    destruct Hqa as (_ & da & Hta & Hha & _). destruct Hq2 as (_ & db & Htb & Hhb & _).
+  - split; [exact Hq|]. intros H0 H1. exfalso.
     assert (m_hs ma = m_hs m) as E1 by reflexivity.
     assert (m_hs m' = m_hs ma) as E2.
     { revert E. unfold read. destruct (m_in ma); intro E; inversion E; subst; reflexivity. }
@@ -81,7 +79,7 @@ Qed.
 
 Lemma negotiate_one_q c m f m' o :
   negotiate_one c m f = (m', o) ->
-  quietly m m' /\ (m_hs m = false -> m_hs m' = true -> o_restart o = true /\ o_err o = false).
+  quietly m m' /\ (m_hs m = false -> m_hs m' = true -> o = mkO st_Secure true false).
 Proof.
   unfold negotiate_one. destruct (f_kind f).
   - intro H; inversion H; subst. split.
@@ -93,20 +91,21 @@ Qed.
 
 Lemma after_pick_q c m req f m' r :
   after_pick c m req f = (m', r) ->
-  quietly m m' /\ (m_hs m = false -> m_hs m' = true -> exists mask, r = Good (Some (mask, true))).
+  quietly m m' /\ (m_hs m = false -> m_hs m' = true -> r = Good (Some (st_Secure, true))).
 Proof.
   unfold after_pick. destruct (negotiate_one c m f) as [m1 o] eqn:E.
   destruct (negotiate_one_q _ _ _ _ _ E) as (Hq & Hb).
   destruct (o_err o) eqn:Ee.
   - intro H; inversion H; subst. split.
     + eapply q_trans; [exact Hq|apply q_same; reflexivity].
-    + intros H0 H1. destruct (Hb H0 H1) as (_ & Hx). congruence.
-  - set (m2 := set_bits (N.lor (m_bits m1) (o_mask o)) m1).
+    + intros H0 H1. rewrite (Hb H0 H1) in Ee. discriminate.
+  - set (m2 := set_ready (m_ready m1 || has (o_mask o) st_Ready)
+                         (set_bits (N.lor (m_bits m1) (N.ldiff (o_mask o) st_Ready)) m1)).
     assert (quietly m (set_negd (f_space f :: m_negd m2) m2)) as Hq3
       by (eapply q_trans; [exact Hq|apply q_same; reflexivity]).
     destruct (o_restart o || req) eqn:Er; intro H; inversion H; subst; (split; [exact Hq3|]).
-    + intros H0 H1. destruct (Hb H0 H1) as (Hx & _). rewrite Hx. eauto.
-    + intros H0 H1. destruct (Hb H0 H1) as (Hx & _). rewrite Hx in Er. discriminate.
+    + intros H0 H1. rewrite (Hb H0 H1). reflexivity.
+    + intros H0 H1. rewrite (Hb H0 H1) in Er. discriminate.
 Qed.
 
 Lemma select_q m m' r : select m = (m', r) -> quietly m m'.
@@ -118,13 +117,11 @@ Proof.
     intro H; inversion H; subst; apply q_same; reflexivity.
 Qed.
 
-Lemma hs_of_quiet m m' : quietly m m' -> m_hs m = false -> m_hs m' = false \/ m_hs m' = true.
-Proof. intros _ _. destruct (m_hs m'); auto. Qed.
-
 Lemma init_loop_q c : forall fuel m forced m' r,
   init_loop fuel c m forced = (m', r) ->
   quietly m m' /\ (m_hs m = false -> m_hs m' = true -> restarting r).
 Proof.
+  unfold restarting.
   induction fuel as [|k IH]; intros m forced m' r H; cbn [init_loop] in H.
   - inversion H; subst. split; [apply q_refl|congruence].
   - destruct forced as [f|].
@@ -136,8 +133,8 @@ Proof.
         destruct (after_pick_q _ _ _ _ _ _ E) as (Hq & Hb).
         assert (quietly m m1) as Hq1 by exact (q_trans _ _ _ Hq0 Hq).
         destruct r1 as [[x|]|e|]; inversion H; subst; (split; [exact Hq1|]); intros H0 H1;
-          destruct (Hb H0 H1) as (mask & Hx); try discriminate.
-        inversion Hx; subst. exists mask. reflexivity.
+          pose proof (Hb H0 H1) as Hx; try discriminate.
+        inversion Hx; subst. reflexivity.
     + destruct (select m) as [m1 r1] eqn:Es. pose proof (select_q _ _ _ Es) as Hqs.
       assert (m_hs m1 = m_hs m) as Hhs.
       { revert Es. unfold select. destruct (candidates m) as [|e0 cands]; [intro X; inversion X; reflexivity|].
@@ -151,22 +148,22 @@ Proof.
       assert (quietly m m2) as Hq2 by exact (q_trans _ _ _ Hqs Hq).
       destruct r2 as [[x|]|e|].
       * inversion H; subst. split; [exact Hq2|]. intros H0 H1.
-        destruct (Hb (eq_trans Hhs H0) H1) as (mask & Hx). inversion Hx; subst. exists mask. reflexivity.
+        pose proof (Hb (eq_trans Hhs H0) H1) as Hx. inversion Hx; subst. reflexivity.
       * destruct (IH _ _ _ _ H) as (Hq3 & Hb3). split; [exact (q_trans _ _ _ Hq2 Hq3)|].
         intros H0 H1. apply Hb3; [|exact H1].
         destruct (m_hs m2) eqn:E2; [|reflexivity].
-        destruct (Hb (eq_trans Hhs H0) eq_refl) as (mask & Hx). discriminate.
+        pose proof (Hb (eq_trans Hhs H0) eq_refl) as Hx. discriminate.
       * inversion H; subst. split; [exact Hq2|]. intros H0 H1.
-        destruct (Hb (eq_trans Hhs H0) H1) as (mask & Hx). discriminate.
+        pose proof (Hb (eq_trans Hhs H0) H1) as Hx. discriminate.
       * inversion H; subst. split; [exact Hq2|]. intros H0 H1.
-        destruct (Hb (eq_trans Hhs H0) H1) as (mask & Hx). discriminate.
+        pose proof (Hb (eq_trans Hhs H0) H1) as Hx. discriminate.
 Qed.
 
 Lemma normal_path_q c m m' r :
   normal_path c m = (m', r) -> quietly m m' /\ (m_hs m = false -> m_hs m' = true -> restarting r).
 Proof.
   unfold normal_path. destruct (m_total m); [intro H; inversion H; subst; split; [apply q_refl|congruence]|].
-  destruct (m_cache m); [intro H; inversion H; subst; split; [apply q_refl|congruence]|].
+  destruct (m_allowed m); [intro H; inversion H; subst; split; [apply q_refl|congruence]|].
   apply init_loop_q.
 Qed.
 
@@ -185,39 +182,36 @@ Qed.
 
 Lemma read_children_adv fs st cs : forall m ca tot lr m' r,
   read_children fs st cs m ca tot lr = (m', r) ->
-  incl (m_adv m') (child_spaces cs ++ m_adv m) /\ m_hs m' = m_hs m /\
+  incl (m_adv m') (child_spaces cs ++ m_adv m) /\ (m_hs m' = m_hs m /\ m_info m' = m_info m) /\
   exists d, m_tr m' = m_tr m ++ d /\ switched d = false /\ ins_of d = [].
 Proof.
   induction cs as [|ch cs IH]; intros m ca tot lr m' r H; cbn [read_children] in H.
-  - inversion H; subst. split; [apply incl_refl|]. split; [reflexivity|]. exists []. rewrite app_nil_r. auto.
+  - inversion H; subst. split; [apply incl_refl|]. split; [auto|]. exists []. rewrite app_nil_r. auto.
   - destruct ch as [sp lo req perr|].
     + cbn [child_spaces flat_map app].
-      assert (forall mm rr, (mm, rr) = (m', r) -> mm = add_adv sp m \/ (exists f, mm = emit (EParse f) (add_adv sp m)) ->
-                             incl (m_adv m') (sp :: child_spaces cs ++ m_adv m) /\ m_hs m' = m_hs m /\
-                             exists d, m_tr m' = m_tr m ++ d /\ switched d = false /\ ins_of d = []) as Hstop.
-      { intros mm rr Heq [Hm|(f & Hm)]; inversion Heq; subst; cbn [m_adv m_hs m_tr emit add_adv set_adv].
-        - split; [intros x Hx; destruct Hx as [Hx|Hx]; [left; exact Hx|right; apply in_or_app; right; exact Hx]|].
-          split; [reflexivity|]. exists []. rewrite app_nil_r. auto.
-        - split; [intros x Hx; destruct Hx as [Hx|Hx]; [left; exact Hx|right; apply in_or_app; right; exact Hx]|].
-          split; [reflexivity|]. exists [EParse f]. auto. }
-      assert (forall mm d0, m_adv mm = sp :: m_adv m -> m_hs mm = m_hs m -> m_tr mm = m_tr m ++ d0 ->
-                            switched d0 = false -> ins_of d0 = [] ->
-                            forall ca' tot' lr', read_children fs st cs mm ca' tot' lr' = (m', r) ->
-                             incl (m_adv m') (sp :: child_spaces cs ++ m_adv m) /\ m_hs m' = m_hs m /\
+      (* the run stops at mm, or goes on from mm; either way mm is m with sp recorded and maybe an EParse event *)
+      assert (forall mm d0, m_adv mm = sp :: m_adv m -> m_hs mm = m_hs m -> m_info mm = m_info m ->
+                            m_tr mm = m_tr m ++ d0 -> switched d0 = false -> ins_of d0 = [] ->
+                            (mm = m' \/ exists ca' tot' lr', read_children fs st cs mm ca' tot' lr' = (m', r)) ->
+                             incl (m_adv m') (sp :: child_spaces cs ++ m_adv m) /\ (m_hs m' = m_hs m /\ m_info m' = m_info m) /\
                              exists d, m_tr m' = m_tr m ++ d /\ switched d = false /\ ins_of d = []) as Hgo.
-      { intros mm d0 Ha Hh Ht Hs Hi ca' tot' lr' Hr.
-        destruct (IH _ _ _ _ _ _ Hr) as (Hinc & Hhs & d1 & Ht1 & Hs1 & Hi1).
-        split.
-        - intros x Hx. apply Hinc in Hx. apply in_app_or in Hx. destruct Hx as [Hx|Hx].
-          + right. apply in_or_app. left. exact Hx.
-          + rewrite Ha in Hx. destruct Hx as [Hx|Hx]; [left; exact Hx|right; apply in_or_app; right; exact Hx].
-        - split; [congruence|]. exists (d0 ++ d1). rewrite Ht1, Ht, app_assoc, switched_app, ins_of_app, Hs, Hs1, Hi, Hi1. auto. }
+      { intros mm d0 Ha Hh Hn Ht Hs Hi [Heq|(ca' & tot' & lr' & Hr)].
+        - subst mm. rewrite Ha. split.
+          + intros x Hx. destruct Hx as [Hx|Hx]; [left; exact Hx|right; apply in_or_app; right; exact Hx].
+          + split; [auto|]. exists d0. auto.
+        - destruct (IH _ _ _ _ _ _ Hr) as (Hinc & (Hhs & Hin) & d1 & Ht1 & Hs1 & Hi1).
+          split.
+          + intros x Hx. apply Hinc in Hx. apply in_app_or in Hx. destruct Hx as [Hx|Hx].
+            * right. apply in_or_app. left. exact Hx.
+            * rewrite Ha in Hx. destruct Hx as [Hx|Hx]; [left; exact Hx|right; apply in_or_app; right; exact Hx].
+          + split; [split; congruence|]. exists (d0 ++ d1).
+            rewrite Ht1, Ht, app_assoc, switched_app, ins_of_app, Hs, Hs1, Hi, Hi1. auto. }
       destruct (get_feature (sp, lo) fs) as [f|].
       * destruct perr.
-        -- eapply Hstop; [exact H|]. right. eauto.
-        -- eapply (Hgo (emit (EParse f) (add_adv sp m)) [EParse f]); try reflexivity. exact H.
-      * eapply (Hgo (add_adv sp m) []); try reflexivity; [cbn; rewrite app_nil_r; reflexivity|exact H].
-    + inversion H; subst. split; [apply incl_appr, incl_refl|]. split; [reflexivity|]. exists []. rewrite app_nil_r. auto.
+        -- apply (Hgo (emit (EParse f) (add_adv sp m)) [EParse f]); try reflexivity. left. inversion H; reflexivity.
+        -- apply (Hgo (emit (EParse f) (add_adv sp m)) [EParse f]); try reflexivity. right. eauto.
+      * apply (Hgo (add_adv sp m) []); try reflexivity; [cbn; rewrite app_nil_r; reflexivity|]. right. eauto.
+    + inversion H; subst. split; [apply incl_appr, incl_refl|]. split; [auto|]. exists []. rewrite app_nil_r. auto.
 Qed.
 
 Lemma features_of_some r cs : features_of r = Some cs -> r = Some (mkItem false (PFeatures cs)).
@@ -230,19 +224,19 @@ Qed.
 Definition step_adv (m m' : mstate) : Prop :=
   exists d, m_tr m' = m_tr m ++ d /\
             incl (m_adv m') (m_adv m ++ adv_spaces (ins_of d)) /\
-            m_hs m' = (m_hs m || switched d).
+            m_hs m' = (m_hs m || switched d) /\ m_info m' = m_info m.
 
 Lemma quietly_step m m' : quietly m m' -> step_adv m m'.
 Proof.
-  intros (Ha & d & Ht & Hh & _). exists d. split; [exact Ht|]. split; [|exact Hh].
+  intros (Ha & d & Ht & Hh & Hn). exists d. split; [exact Ht|]. split; [|split; [exact Hh|exact Hn]].
   rewrite Ha. apply incl_appl, incl_refl.
 Qed.
 
 Lemma step_trans m1 m2 m3 : step_adv m1 m2 -> step_adv m2 m3 -> step_adv m1 m3.
 Proof.
-  intros (d1 & Ht1 & Hi1 & Hh1) (d2 & Ht2 & Hi2 & Hh2). exists (d1 ++ d2).
+  intros (d1 & Ht1 & Hi1 & Hh1 & Hn1) (d2 & Ht2 & Hi2 & Hh2 & Hn2). exists (d1 ++ d2).
   rewrite Ht2, Ht1, app_assoc, Hh2, Hh1, switched_app, Bool.orb_assoc, ins_of_app, adv_spaces_app.
-  split; [reflexivity|]. split; [|reflexivity].
+  split; [reflexivity|]. split; [|split; [reflexivity|congruence]].
   intros x Hx. apply Hi2 in Hx. apply in_app_or in Hx. destruct Hx as [Hx|Hx].
   - apply Hi1 in Hx. apply in_app_or in Hx. destruct Hx as [Hx|Hx]; apply in_or_app; [left; exact Hx|].
     right. apply in_or_app. left. exact Hx.
@@ -265,10 +259,11 @@ Proof.
       eexists. split; [reflexivity|]. split; [reflexivity|]. cbn. rewrite app_nil_r. reflexivity. }
     assert (m_adv m1 = m_adv m) as Had1 by (destruct Hq1 as (Ha & _); exact Ha).
     destruct (read_children (c_feats c) (m_bits m1) cs m1 [] 0 false) as [m2 r2] eqn:Ec.
-    destruct (read_children_adv _ _ _ _ _ _ _ _ _ Ec) as (Hinc & Hh2 & d1 & Ht1 & Hs1 & Hi1).
+    destruct (read_children_adv _ _ _ _ _ _ _ _ _ Ec) as (Hinc & (Hh2 & Hn2) & d1 & Ht1 & Hs1 & Hi1).
     assert (step_adv m m2) as Hs2.
     { exists (d0 ++ d1). rewrite Ht1, Ht0, app_assoc, switched_app, Hs0, Hs1, ins_of_app, Hi1, app_nil_r, Ha0.
-      split; [reflexivity|]. split; [|rewrite Hh2, Hh1, Bool.orb_false_r; reflexivity].
+      split; [reflexivity|]. split; [|split; [rewrite Hh2, Hh1, Bool.orb_false_r; reflexivity|]].
+      2:{ destruct Hq1 as (_ & dq & _ & _ & Hnq). congruence. }
       intros y Hy. apply Hinc in Hy. rewrite Had1 in Hy. apply in_app_or in Hy. apply in_or_app. tauto. }
     destruct r2 as [[[ca tot] lr]|e|].
     + intro H. destruct (after_read_q _ _ _ _ _ H) as (Hq3 & Hb3).
@@ -291,43 +286,91 @@ Proof.
   intros Hp. destruct Hp; unfold hs_tls; cbn; auto. discriminate.
 Qed.
 
-Lemma read_hs rp m m' r : read rp m = (m', r) -> m_hs m' = m_hs m /\ m_adv m' = m_adv m /\
-  exists d, m_tr m' = m_tr m ++ d /\ switched d = false.
+Lemma read_hs rp m m' r : read rp m = (m', r) ->
+  m_hs m' = m_hs m /\ m_adv m' = m_adv m /\ m_info m' = m_info m /\
+  exists d, m_tr m' = m_tr m ++ d /\ switched d = false /\
+            ins_of d = match r with Some it => [it] | None => [] end.
 Proof.
-  unfold read. destruct (m_in m); intro H; inversion H; subst; cbn [m_hs m_adv m_tr emit set_in];
-    (split; [reflexivity|split; [reflexivity|eexists; split; [reflexivity|reflexivity]]]).
+  unfold read. destruct (m_in m); intro H; inversion H; subst; cbn [m_hs m_adv m_info m_tr emit set_in];
+    (split; [reflexivity|split; [reflexivity|split; [reflexivity|eexists; split; [reflexivity|split; reflexivity]]]]).
+Qed.
+
+(* how a header exchange changes s.in.Info: not at all, or by the attributes of
+   a stream header delivered during it *)
+Definition info_step (c : config) (d : list event) (n n' : info) : Prop :=
+  n' = n \/ exists h, In h (headers_of (ins_of d)) /\ (n' = assign h n \/ n' = fix_to c (assign h n)).
+
+Lemma header_of_some r h : header_of r = Some h -> exists sp, r = Some (mkItem sp (PHeader h)).
+Proof.
+  destruct r as [[sp b]|]; [|discriminate]. destruct b; try discriminate. cbn. intro H; inversion H; subst. eauto.
+Qed.
+
+Lemma expect_header_adv c m m' r :
+  expect_header c m = (m', r) ->
+  m_hs m' = m_hs m /\ m_adv m' = m_adv m /\
+  exists d, m_tr m' = m_tr m ++ d /\ switched d = false /\
+            info_step c d (m_info m) (m_info m') /\
+            (r = Good tt -> n_from (m_info m') = c_loc c /\ n_to (m_info m') = c_orig c).
+Proof.
+  unfold expect_header. destruct (read RPHeader m) as [m1 x] eqn:Er.
+  destruct (read_hs _ _ _ _ Er) as (Hh & Ha & Hn & d & Ht & Hs & Hi).
+  destruct (header_of x) as [h|] eqn:Eh.
+  - destruct (header_of_some _ _ Eh) as (sp & Hx). subst x.
+    assert (In h (headers_of (ins_of d))) as Hin by (rewrite Hi; cbn; auto).
+    rewrite Hn. destruct (header_ok c (assign h (m_info m))) eqn:Eok; intro H; inversion H; subst;
+      cbn [m_hs m_adv m_tr m_info set_info]; (split; [exact Hh|]); (split; [exact Ha|]); exists d;
+      (split; [exact Ht|]); (split; [exact Hs|]).
+    + split; [right; exists h; auto|]. intros _.
+      unfold header_ok in Eok. apply andb_prop in Eok. destruct Eok as [Eok E5].
+      apply andb_prop in Eok. destruct Eok as [_ E4]. apply bytes_eqb_eq in E4.
+      unfold fix_to. destruct (is_nil (n_to (assign h (m_info m)))) eqn:En; cbn [n_from n_to].
+      * split; [exact E4|reflexivity].
+      * split; [exact E4|]. cbn [orb] in E5. apply bytes_eqb_eq in E5. exact E5.
+    + split; [right; exists h; auto|discriminate].
+  - intro H; inversion H; subst. split; [exact Hh|]. split; [exact Ha|]. exists d.
+    split; [exact Ht|]. split; [exact Hs|]. split; [left; exact Hn|discriminate].
+Qed.
+
+Lemma info_step_mono c d0 d n n' : info_step c d n n' -> info_step c (d0 ++ d) n n'.
+Proof.
+  intros [H|(h & Hin & H)]; [left; exact H|]. right. exists h. split; [|exact H].
+  rewrite ins_of_app. unfold headers_of. rewrite flat_map_app. apply in_or_app. right. exact Hin.
 Qed.
 
 (* the header exchange: no features list is read, no layer is switched, and
    when it succeeds on a restart no handshake is pending any more *)
 Lemma headers_adv c m ns m1 r1 :
   headers c m ns = (m1, r1) -> hs_tls m ->
-  m_adv m1 = m_adv m /\ (exists d, m_tr m1 = m_tr m ++ d /\ switched d = false) /\
+  m_adv m1 = m_adv m /\
+  (exists d, m_tr m1 = m_tr m ++ d /\ switched d = false /\
+             info_step c d (m_info m) (m_info m1)) /\
   (m_hs m = false -> m_hs m1 = false) /\
-  (ns_restart ns = true -> r1 = Good tt -> m_hs m1 = false).
+  (ns_restart ns = true -> r1 = Good tt -> m_hs m1 = false) /\
+  (ns_restart ns = true -> r1 = Good tt -> n_from (m_info m1) = c_loc c /\ n_to (m_info m1) = c_orig c).
 Proof.
   unfold headers. intros H Hht. destruct (ns_restart ns).
   - unfold send_header in H. destruct (m_tls m && m_hs m) eqn:Eth.
     + destruct (c_hs_ok c).
       * set (ma := emit (EOut WHeader) (emit (EHandshake true) (set_hs false m))) in H.
-        unfold expect_header in H. destruct (read RPHeader ma) as [mb x] eqn:Er.
-        destruct (read_hs _ _ _ _ Er) as (Hh & Ha & d & Ht & Hs). inversion H; subst.
+        destruct (expect_header_adv _ _ _ _ H) as (Hh & Ha & d & Ht & Hs & Hst & Hok).
         split; [exact Ha|]. split.
         { exists ([EHandshake true; EOut WHeader] ++ d). rewrite Ht. unfold ma. cbn [m_tr emit set_hs].
-          rewrite <- !app_assoc. cbn [app]. split; [reflexivity|]. cbn. exact Hs. }
+          rewrite <- !app_assoc. cbn [app]. split; [reflexivity|]. split; [cbn; exact Hs|].
+          apply (info_step_mono c [EHandshake true; EOut WHeader]). exact Hst. }
         rewrite Hh. cbn. auto.
-      * inversion H; subst. cbn [m_adv m_tr m_hs emit set_hs]. split; [reflexivity|].
-        split; [exists [EHandshake false]; auto|]. split; [auto|discriminate].
+      * inversion H; subst. cbn [m_adv m_tr m_hs m_info emit set_hs]. split; [reflexivity|].
+        split; [exists [EHandshake false]; repeat split; auto; left; reflexivity|]. split; [auto|split; discriminate].
     + assert (m_hs m = false) as Hf.
       { destruct (m_hs m) eqn:E; [|reflexivity]. rewrite (Hht E) in Eth. discriminate. }
       set (ma := emit (EOut WHeader) m) in H.
-      unfold expect_header in H. destruct (read RPHeader ma) as [mb x] eqn:Er.
-      destruct (read_hs _ _ _ _ Er) as (Hh & Ha & d & Ht & Hs). inversion H; subst.
+      destruct (expect_header_adv _ _ _ _ H) as (Hh & Ha & d & Ht & Hs & Hst & Hok).
       split; [exact Ha|]. split.
       { exists ([EOut WHeader] ++ d). rewrite Ht. unfold ma. cbn [m_tr emit]. rewrite <- app_assoc.
-        split; [reflexivity|]. cbn. exact Hs. }
+        split; [reflexivity|]. split; [cbn; exact Hs|].
+        apply (info_step_mono c [EOut WHeader]). exact Hst. }
       rewrite Hh. cbn [m_hs emit]. auto.
-  - inversion H; subst. split; [reflexivity|]. split; [exists []; rewrite app_nil_r; auto|]. split; [auto|discriminate].
+  - inversion H; subst. split; [reflexivity|].
+    split; [exists []; rewrite app_nil_r; repeat split; auto; left; reflexivity|]. split; [auto|split; discriminate].
 Qed.
 
 (* one negotiator call *)
@@ -335,39 +378,55 @@ Lemma negotiator_body_adv c m ns m' r :
   negotiator_body c m ns = (m', r) -> hs_tls m -> (m_hs m = true -> ns_restart ns = true) ->
   exists d, m_tr m' = m_tr m ++ d /\
             incl (m_adv m') (m_adv m ++ adv_spaces (ins_of d)) /\
-            (switched d = true -> exists mask ns1, r = Good (mask, true, ns1)) /\
+            info_step c d (m_info m) (m_info m') /\
+            (switched d = true -> exists ns1, r = Good (st_Secure, true, ns1)) /\
             (forall mask ns1, r = Good (mask, false, ns1) -> m_hs m' = false) /\
-            (forall mask restart ns1, r = Good (mask, restart, ns1) -> ns_restart ns1 = restart).
+            (forall mask restart ns1, r = Good (mask, restart, ns1) -> ns_restart ns1 = restart) /\
+            (forall x, ns_restart ns = true -> r = Good x ->
+                       n_from (m_info m') = c_loc c /\ n_to (m_info m') = c_orig c) /\
+            (switched d = true -> m_hs m' = true) /\
+            (ns_restart ns = false -> m_info m' = m_info m).
 Proof.
   rewrite negotiator_body_unfold. intros H Hht Hns.
   destruct (headers c m ns) as [m1 r1] eqn:Eh.
-  destruct (headers_adv _ _ _ _ _ Eh Hht) as (Ha1 & (d1 & Ht1 & Hs1) & Hf1 & Hg1).
+  destruct (headers_adv _ _ _ _ _ Eh Hht) as (Ha1 & (d1 & Ht1 & Hs1 & Hst1) & Hf1 & Hg1 & Haddr).
   destruct r1 as [u|e|].
   - assert (m_hs m1 = false) as Hh1.
     { destruct (m_hs m) eqn:E; [|apply Hf1; reflexivity]. destruct u. apply Hg1; [apply Hns; reflexivity|reflexivity]. }
     destruct (negotiate_features c m1 (ns_first ns)) as [m2 r2] eqn:En.
-    destruct (negotiate_features_adv _ _ _ _ _ En) as ((d2 & Ht2 & Hi2 & Hh2) & Hb2).
+    destruct (negotiate_features_adv _ _ _ _ _ En) as ((d2 & Ht2 & Hi2 & Hh2 & Hn2) & Hb2).
     rewrite Hh1 in Hh2. cbn [orb] in Hh2.
+    assert (m' = m2) as Hm by (destruct r2 as [[mask restart]|e|]; inversion H; subst; reflexivity). subst m2.
     exists (d1 ++ d2). rewrite switched_app, Hs1, ins_of_app, adv_spaces_app. cbn [orb].
-    split; [destruct r2 as [[mask restart]|e|]; inversion H; subst; rewrite Ht2, Ht1, app_assoc; reflexivity|].
+    split; [rewrite Ht2, Ht1, app_assoc; reflexivity|].
+    split; [intros x Hx; apply Hi2 in Hx; rewrite Ha1 in Hx; apply in_app_or in Hx; apply in_or_app;
+            destruct Hx as [Hx|Hx]; [left; exact Hx|right; apply in_or_app; right; exact Hx]|].
     split.
-    { assert (m_adv m' = m_adv m2) as Hm by (destruct r2 as [[mask restart]|e|]; inversion H; subst; reflexivity).
-      rewrite Hm. intros x Hx. apply Hi2 in Hx. rewrite Ha1 in Hx. apply in_app_or in Hx.
-      apply in_or_app. destruct Hx as [Hx|Hx]; [left; exact Hx|right; apply in_or_app; right; exact Hx]. }
+    { rewrite Hn2. destruct Hst1 as [Hx|(h & Hin & Hx)]; [left; exact Hx|]. right. exists h. split; [|exact Hx].
+      rewrite ins_of_app. unfold headers_of. rewrite flat_map_app. apply in_or_app. left. exact Hin. }
     split.
-    { intro Hsw. rewrite Hsw in Hh2. destruct (Hb2 Hh1 Hh2) as (mask & Hr). subst r2.
-      inversion H; subst. eauto. }
+    { intro Hsw. rewrite Hsw in Hh2. pose proof (Hb2 Hh1 Hh2) as Hr. unfold restarting in Hr. subst r2. inversion H; subst. eauto. }
     split.
     { intros mask ns1 Hr. destruct r2 as [[mask2 restart2]|e|]; rewrite Hr in H; inversion H; subst.
-      destruct (m_hs m') eqn:E; [|reflexivity]. destruct (Hb2 Hh1 eq_refl) as (mk & Hx). inversion Hx. }
+      destruct (m_hs m') eqn:E; [|reflexivity]. pose proof (Hb2 Hh1 eq_refl) as Hx. unfold restarting in Hx. inversion Hx. }
+    split.
     { intros mask restart ns1 Hr. destruct r2 as [[mask2 restart2]|e|]; rewrite Hr in H; inversion H; subst. reflexivity. }
+    split.
+    { intros x Hr _. rewrite Hn2. destruct u. apply Haddr; [exact Hr|reflexivity]. }
+    split.
+    { intro Hsw. rewrite Hh2, Hsw. reflexivity. }
+    { intro Hnr. rewrite Hn2. revert Eh. unfold headers. rewrite Hnr. intro X; inversion X; reflexivity. }
   - inversion H; subst. exists d1. rewrite Hs1, Ha1. split; [exact Ht1|]. split; [apply incl_appl, incl_refl|].
-    split; [discriminate|]. split; intros; discriminate.
+    split; [exact Hst1|]. split; [discriminate|]. split; [intros; discriminate|]. split; [intros; discriminate|].
+    split; [intros; discriminate|]. split; [discriminate|].
+    intro Hnr. revert Eh. unfold headers. rewrite Hnr. intro X; inversion X; reflexivity.
   - inversion H; subst. exists d1. rewrite Hs1, Ha1. split; [exact Ht1|]. split; [apply incl_appl, incl_refl|].
-    split; [discriminate|]. split; intros; discriminate.
+    split; [exact Hst1|]. split; [discriminate|]. split; [intros; discriminate|]. split; [intros; discriminate|].
+    split; [intros; discriminate|]. split; [discriminate|].
+    intro Hnr. revert Eh. unfold headers. rewrite Hnr. intro X; inversion X; reflexivity.
 Qed.
 
-(* ------------------------------------------------------------------ the invariant of negotiateSession's loop *)
+(* ------------------------------------------------------------------ the invariants of negotiateSession's loop *)
 
 Definition advinv (m : mstate) : Prop :=
   switched (m_tr m) = true -> incl (m_adv m) (adv_spaces (ins_of (after_switch (m_tr m)))).
@@ -385,31 +444,144 @@ Qed.
 Lemma advinv_empty m : m_adv m = [] -> advinv m.
 Proof. intros He _. rewrite He. intros x []. Qed.
 
-Definition loopinv (m : mstate) (data : option nstate) : Prop :=
-  advinv m /\ hs_tls m /\ (m_hs m = true -> ns_restart (ns_of data) = true).
+(* a field of s.in.Info is zero, or was set by one of some stream headers *)
+Definition src (sel : hattrs -> option bytes) (hs : list hattrs) (v : bytes) : Prop :=
+  v = [] \/ exists h, In h hs /\ sel h = Some v.
 
-Lemma loop_adv c : forall fuel tee m data istee,
-  loopinv m data -> advinv (r_state (session_loop fuel tee c m data istee)).
+Definition info_from (hs : list hattrs) (n : info) : Prop :=
+  src h_id hs (n_id n) /\ src h_ver hs (n_ver n) /\ src h_lang hs (n_lang n) /\ src h_xmlns hs (n_xmlns n).
+
+Lemma src_mono sel hs hs' v : incl hs hs' -> src sel hs v -> src sel hs' v.
+Proof. intros Hi [H|(h & Hin & H)]; [left; exact H|right; exists h; auto]. Qed.
+
+Lemma info_from_mono hs hs' n : incl hs hs' -> info_from hs n -> info_from hs' n.
+Proof. intros Hi (A & B & C & D). repeat split; eapply src_mono; eauto. Qed.
+
+Lemma src_pick sel hs h old : In h hs -> src sel hs old -> src sel hs (pick (sel h) old).
+Proof. intros Hin Ho. unfold pick. destruct (sel h) eqn:E; [right; exists h; auto|exact Ho]. Qed.
+
+Lemma info_from_assign hs h n : In h hs -> info_from hs n -> info_from hs (assign h n).
+Proof. intros Hin (A & B & C & D). unfold assign, info_from; cbn. repeat split; apply src_pick; assumption. Qed.
+
+Lemma info_from_fix c hs n : info_from hs n -> info_from hs (fix_to c n).
+Proof. unfold fix_to. destruct (is_nil (n_to n)); auto. Qed.
+
+Lemma info_from_keep hs n : info_from hs (keep_addr n).
+Proof. unfold info_from, keep_addr; cbn. repeat split; left; reflexivity. Qed.
+
+Definition hdrs_after (m : mstate) : list hattrs := headers_of (ins_of (after_switch (m_tr m))).
+
+(* at the head of the loop; the premise excludes the one state in which the
+   stale info of the clear-text stream is still there: layer just installed
+   (handshake pending) and the Ready bit already set, so that the loop ends
+   without the stream ever being restarted *)
+Definition infoinv (m : mstate) : Prop :=
+  switched (m_tr m) = true -> (m_hs m = false \/ has (m_bits m) st_Ready = false) ->
+  info_from (hdrs_after m) (m_info m).
+
+Lemma info_ext c m m' d :
+  (switched (m_tr m) = true -> info_from (hdrs_after m) (m_info m)) ->
+  m_tr m' = m_tr m ++ d -> switched d = false -> info_step c d (m_info m) (m_info m') ->
+  switched (m_tr m') = true -> info_from (hdrs_after m') (m_info m').
 Proof.
-  induction fuel as [|k IH]; intros tee m data istee (Hk & Hht & Hns); [exact Hk|].
-  rewrite session_loop_S. destruct (has (m_bits m) st_Ready); [exact Hk|].
-  destruct (tee && negb istee).
-  - apply IH. split; [apply advinv_empty; reflexivity|]. split; [exact Hht|exact Hns].
-  - destruct (negotiator_body c m (ns_of data)) as [m1 r] eqn:Eb.
-    destruct (negotiator_body_adv _ _ _ _ _ Eb Hht Hns) as (d & Ht & Hi & Hsw & Hnr & Hn1).
-    pose proof (evolves_inv c hs_tls (hs_tls_prim c) _ _ (negotiator_body_ev _ _ _ _ _ Eb) Hht) as Hht1.
-    destruct r as [[[mask restart] ns1]|e|].
-    + apply IH. destruct restart.
-      * split; [apply advinv_empty; reflexivity|]. split; [exact Hht1|].
-        intros _. cbn [ns_of]. apply (Hn1 _ _ _ eq_refl).
-      * split.
-        { apply (advinv_ext m _ d Hk); [exact Ht| |exact Hi].
-          destruct (switched d) eqn:E; [|reflexivity]. destruct (Hsw eq_refl) as (mk & n1 & Hx). inversion Hx. }
-        split; [exact Hht1|]. cbn [m_hs set_bits]. rewrite (Hnr _ _ eq_refl). discriminate.
-    + cbn [r_state]. apply (advinv_ext m _ d Hk); [exact Ht| |exact Hi].
-      destruct (switched d) eqn:E; [|reflexivity]. destruct (Hsw eq_refl) as (mk & n1 & Hx). discriminate.
-    + cbn [r_state]. apply (advinv_ext m _ d Hk); [exact Ht| |exact Hi].
-      destruct (switched d) eqn:E; [|reflexivity]. destruct (Hsw eq_refl) as (mk & n1 & Hx). discriminate.
+  intros Hk Ht Hs Hst. unfold hdrs_after. rewrite Ht, switched_app, Hs, Bool.orb_false_r, after_switch_app.
+  intro Hsw. rewrite Hsw, ins_of_app. unfold headers_of. rewrite flat_map_app. fold (headers_of (ins_of d)).
+  pose proof (Hk Hsw) as Hold. unfold hdrs_after, headers_of in Hold.
+  assert (info_from (flat_map (fun it => match i_body it with PHeader h => [h] | _ => [] end) (ins_of (after_switch (m_tr m)))
+                     ++ headers_of (ins_of d)) (m_info m)) as Hold2
+    by (eapply info_from_mono; [|exact Hold]; apply incl_appl, incl_refl).
+  destruct Hst as [Hx|(h & Hin & [Hx|Hx])]; rewrite Hx.
+  - exact Hold2.
+  - apply info_from_assign; [apply in_or_app; right; exact Hin|exact Hold2].
+  - apply info_from_fix, info_from_assign; [apply in_or_app; right; exact Hin|exact Hold2].
+Qed.
+
+Definition addr_ok (c : config) (m : mstate) : Prop :=
+  n_from (m_info m) = c_loc c /\ n_to (m_info m) = c_orig c.
+
+Definition loopinv (c : config) (m : mstate) (data : option nstate) : Prop :=
+  advinv m /\ infoinv m /\ addr_ok c m /\ hs_tls m /\ (m_hs m = true -> ns_restart (ns_of data) = true).
+
+(* what holds of every state the loop can end in *)
+Definition endinv (c : config) (m : mstate) : Prop :=
+  advinv m /\
+  (switched (m_tr m) = true -> m_hs m = false -> info_from (hdrs_after m) (m_info m)).
+
+Lemma renew_fields m :
+  m_tr (renew_info m) = m_tr m /\ m_adv (renew_info m) = m_adv m /\ m_hs (renew_info m) = m_hs m /\
+  m_tls (renew_info m) = m_tls m /\ m_bits (renew_info m) = m_bits m /\
+  n_from (m_info (renew_info m)) = n_from (m_info m) /\ n_to (m_info (renew_info m)) = n_to (m_info m) /\
+  (has (m_bits m) st_Ready = false -> m_info (renew_info m) = keep_addr (m_info m)) /\
+  (has (m_bits m) st_Ready = true -> m_info (renew_info m) = m_info m).
+Proof. unfold renew_info. destruct (has (m_bits m) st_Ready); cbn; repeat split; auto; discriminate. Qed.
+
+Lemma loop_inv c : forall fuel tee m data istee,
+  loopinv c m data ->
+  let r := session_loop fuel tee c m data istee in
+  endinv c (r_state r) /\ (r_class r = ROk -> addr_ok c (r_state r)).
+Proof.
+  induction fuel as [|k IH]; intros tee m data istee (Hk & Hi & Had & Hht & Hns).
+  - cbn. split; [split; [exact Hk|]|discriminate]. intros Hsw Hh. apply Hi; auto.
+  - rewrite session_loop_S. destruct (has (m_bits m) st_Ready) eqn:Er.
+    { cbn. split; [split; [exact Hk|]|intros _; exact Had]. intros Hsw Hh. apply Hi; auto. }
+    destruct (tee && negb istee).
+    + apply IH. unfold tee_state.
+      destruct (renew_fields (reset_stream m)) as (F1 & F2 & F3 & F4 & F5 & F6 & F7 & F8 & _).
+      split; [apply advinv_empty; rewrite F2; reflexivity|].
+      split; [intros _ _; rewrite (F8 Er); apply info_from_keep|].
+      split; [unfold addr_ok; rewrite F6, F7; exact Had|].
+      split; [unfold hs_tls; rewrite F3, F4; exact Hht|rewrite F3; exact Hns].
+    + destruct (negotiator_body c m (ns_of data)) as [m1 r] eqn:Eb.
+      destruct (negotiator_body_adv _ _ _ _ _ Eb Hht Hns) as (d & Ht & Hinc & Hst & Hsw & Hnr & Hn1 & Haddr & Hhs1 & Hsame).
+      pose proof (evolves_inv c hs_tls (hs_tls_prim c) _ _ (negotiator_body_ev _ _ _ _ _ Eb) Hht) as Hht1.
+      assert (switched d = false -> advinv m1 /\ (switched (m_tr m1) = true -> info_from (hdrs_after m1) (m_info m1))) as Hext.
+      { intro Hs. split; [apply (advinv_ext m _ d Hk); assumption|].
+        apply (info_ext c m m1 d); try assumption. intro Hs0. apply Hi; auto. }
+      destruct r as [[[mask restart] ns1]|e|].
+      * apply IH. unfold next_state. destruct restart.
+        -- set (m3 := set_bits (N.lor (m_bits (reset_stream m1)) mask) (reset_stream m1)).
+           destruct (renew_fields m3) as (F1 & F2 & F3 & F4 & F5 & F6 & F7 & F8 & F9).
+           split; [apply advinv_empty; rewrite F2; reflexivity|].
+           split.
+           { intros Hsw3 Hor. destruct (has (m_bits m3) st_Ready) eqn:Er3.
+             - rewrite (F9 eq_refl). rewrite F5, Er3, F3 in Hor. destruct Hor as [Hor|Hor]; [|discriminate].
+               destruct (switched d) eqn:Ed.
+               + assert (m_hs m1 = false) as Hz by exact Hor. rewrite (Hhs1 eq_refl) in Hz. discriminate.
+               + destruct (Hext eq_refl) as (_ & Hx). unfold hdrs_after in *. rewrite F1 in *. apply Hx. exact Hsw3.
+             - rewrite (F8 eq_refl). apply info_from_keep. }
+           split.
+           { unfold addr_ok. rewrite F6, F7. change (m_info m3) with (m_info m1).
+             destruct (ns_restart (ns_of data)) eqn:En.
+             - apply (Haddr _ eq_refl eq_refl).
+             - rewrite (Hsame eq_refl). exact Had. }
+           split; [unfold hs_tls; rewrite F3, F4; exact Hht1|].
+           intros _. cbn [ns_of]. apply (Hn1 _ _ _ eq_refl).
+        -- assert (switched d = false) as Hs.
+           { destruct (switched d) eqn:E; [|reflexivity]. destruct (Hsw eq_refl) as (n1 & Hx). inversion Hx. }
+           destruct (Hext Hs) as (Ha1 & Hi1).
+           split; [exact Ha1|]. split; [intros Hsw3 _; apply Hi1; exact Hsw3|].
+           split.
+           { unfold addr_ok. cbn [m_info set_bits].
+             destruct (ns_restart (ns_of data)) eqn:En.
+             - apply (Haddr _ eq_refl eq_refl).
+             - rewrite (Hsame eq_refl). exact Had. }
+           split; [exact Hht1|]. cbn [m_hs set_bits]. rewrite (Hnr _ _ eq_refl). discriminate.
+      * assert (switched d = false) as Hs.
+        { destruct (switched d) eqn:E; [|reflexivity]. destruct (Hsw eq_refl) as (n1 & Hx). discriminate. }
+        destruct (Hext Hs) as (Ha1 & Hi1). cbn [r_state r_class]. split; [|discriminate].
+        split; [exact Ha1|]. intros Hsw3 _. apply Hi1. exact Hsw3.
+      * assert (switched d = false) as Hs.
+        { destruct (switched d) eqn:E; [|reflexivity]. destruct (Hsw eq_refl) as (n1 & Hx). discriminate. }
+        destruct (Hext Hs) as (Ha1 & Hi1). cbn [r_state r_class]. split; [|discriminate].
+        split; [exact Ha1|]. intros Hsw3 _. apply Hi1. exact Hsw3.
+Qed.
+
+Lemma run_endinv tee c fv bits clear tls outs choices :
+  let r := run tee c fv bits clear tls outs choices in
+  endinv c (r_state r) /\ (r_class r = ROk -> addr_ok c (r_state r)).
+Proof.
+  unfold run. apply loop_inv. unfold loopinv, advinv, infoinv, addr_ok, hs_tls, init_state; cbn.
+  repeat split; intros; discriminate.
 Qed.
 
 (* What the session reports as advertised once a TLS layer has been installed
@@ -421,11 +593,25 @@ Lemma run_adv tee c fv bits clear tls outs choices :
   incl (m_adv (r_state r)) (adv_spaces (ins_of (after_switch (trace r)))) /\
   incl (m_adv (r_state r)) (adv_spaces tls).
 Proof.
-  intros r Hsw.
-  assert (advinv (r_state r)) as Hk.
-  { unfold r, run. apply loop_adv. split; [intro H; discriminate|]. split; [intro H; discriminate|intro H; discriminate]. }
+  intros r Hsw. destruct (run_endinv tee c fv bits clear tls outs choices) as ((Hk & _) & _). fold r in Hk.
   pose proof (Hk Hsw) as Hi. split; [exact Hi|].
   destruct (acct_final clear tls _ (run_acct tee c fv bits clear tls outs choices)) as (_ & rest & Hr).
   fold r in Hr. unfold trace in *. intros x Hx. apply Hi in Hx. rewrite <- Hr, adv_spaces_app.
   apply in_or_app. left. exact Hx.
+Qed.
+
+(* Every data field of Session.In() (id, version, xml:lang, content name space)
+   is zero or was set by a stream header consumed after the switch, once the
+   handshake of the installed layer has run. *)
+Lemma run_info tee c fv bits clear tls outs choices :
+  let r := run tee c fv bits clear tls outs choices in
+  switched (trace r) = true -> m_hs (r_state r) = false ->
+  info_from (headers_of (ins_of (after_switch (trace r)))) (m_info (r_state r)) /\
+  info_from (headers_of tls) (m_info (r_state r)).
+Proof.
+  intros r Hsw Hh. destruct (run_endinv tee c fv bits clear tls outs choices) as ((_ & Hi) & _). fold r in Hi.
+  pose proof (Hi Hsw Hh) as Hx. split; [exact Hx|].
+  destruct (acct_final clear tls _ (run_acct tee c fv bits clear tls outs choices)) as (_ & rest & Hr).
+  fold r in Hr. unfold trace, hdrs_after in *. eapply info_from_mono; [|exact Hx].
+  rewrite <- Hr. unfold headers_of. rewrite flat_map_app. apply incl_appl, incl_refl.
 Qed.
